@@ -322,6 +322,10 @@ func frameObligations(ex *Exec, fx *fnExec, entry, out *State, locs []Loc) {
 	}
 	for _, loc := range locs {
 		switch loc.Kind {
+		case "key":
+			for _, k := range loc.Keys {
+				wholeKey[k] = true
+			}
 		case "elems":
 			et := loc.Slice.T.Underlying().(*types.Slice).Elem()
 			for k := range layout(et) {
